@@ -392,4 +392,126 @@ theorem fileText_read (seqName : List Char) (fs : List Feature)
   have := readLines_feats _ hrows [Line.blank] _ hend rfl rfl
   simp only [readLines, this, Option.bind_some, step, List.map_map, Function.comp_def, List.append_nil, and_self, if_true]
 
+/-! ### several collections in one call -/
+
+/-- the lines of one collection's part of the output -/
+def sectionLines (seqName : List Char) (fs : List Feature) : List (List Char) :=
+  (">Features ".toList ++ seqName) :: (fs.map strLines).flatten
+
+theorem fileText_eq (seqName : List Char) (fs : List Feature) (hfs : ∀ f ∈ fs, FeatOK f) :
+    fileText seqName fs = some (join '\n' (sectionLines seqName fs) ++ ['\n']) := by
+  have hstrs : fs.mapM Feature.str = some (fs.map (fun f => join '\n' (strLines f))) := by
+    induction fs with
+    | nil => rfl
+    | cons f fs ih =>
+      have := ih (fun x hx => hfs x (List.mem_cons_of_mem _ hx))
+      simp only [List.mapM_cons, str_eq f (hfs f (by simp)).blocks, this, List.map_cons]
+      rfl
+  unfold fileText sectionLines
+  rw [hstrs]
+  simp only [Option.some.injEq]
+  congr 1
+  let hdr : List Char := ">Features ".toList ++ seqName
+  have hg : ∀ g ∈ ([hdr] :: fs.map strLines), g ≠ [] := by
+    intro g hg
+    simp only [List.mem_cons, List.mem_map] at hg
+    rcases hg with rfl | ⟨f, hf, rfl⟩
+    · simp
+    · exact strLines_ne_nil f (hfs f hf).blocks
+  have := join_flatten '\n' ([hdr] :: fs.map strLines) hg
+  simp only [List.map_cons, List.map_map, List.flatten_cons, List.singleton_append] at this
+  have h1 : join '\n' [hdr] = hdr := rfl
+  rw [h1] at this
+  exact this
+
+theorem sectionLines_no_nl (seqName : List Char) (fs : List Feature) (hn : '\n' ∉ seqName)
+    (hfs : ∀ f ∈ fs, FeatOK f) : ∀ l ∈ sectionLines seqName fs, '\n' ∉ l := by
+  intro l hl
+  simp only [sectionLines, List.mem_cons, List.mem_flatten, List.mem_map] at hl
+  rcases hl with rfl | ⟨g, ⟨f, hf, rfl⟩, hl⟩
+  · simp only [List.mem_append, not_or]; exact ⟨by decide, hn⟩
+  · exact strLines_no_nl f (hfs f hf) l hl
+
+/-- the (feature, followed-by-blank-line) list of a collection -/
+def featBlanks (fs : List Feature) : List (Feat × Bool) :=
+  fs.map (fun f => (featOf f, (qualLines (validKeys f.key) f.quals f.pseudo).isEmpty))
+
+theorem classify_section (seqName : List Char) (fs : List Feature)
+    (hn : seqName ≠ [] ∧ ' ' ∉ seqName) (hfs : ∀ f ∈ fs, FeatOK f) :
+    (sectionLines seqName fs).map classify = Line.header seqName :: featsLs (featBlanks fs) := by
+  unfold sectionLines featBlanks
+  simp only [List.map_cons]
+  rw [classify_header seqName hn.2 hn.1, classify_all fs hfs]
+
+theorem readLines_section (s : List Char) (fbs : List (Feat × Bool)) (hrows : ∀ fb ∈ fbs, fb.1.rows ≠ [])
+    (rest : List Line) (st : St) (h : readLines rest = some st)
+    (hr : st.rows = []) (hq : st.quals = []) (hf : st.feats = []) :
+    readLines (Line.header s :: featsLs fbs ++ rest) = some { st with secs := ⟨s, fbs.map (·.1)⟩ :: st.secs } := by
+  have := readLines_feats fbs hrows rest st h hr hq
+  simp only [List.cons_append, readLines, this, Option.bind_some, step, hr, hq, hf, and_self, if_true,
+    List.append_nil]
+
+theorem featBlanks_rows (fs : List Feature) (hfs : ∀ f ∈ fs, FeatOK f) : ∀ fb ∈ featBlanks fs, fb.1.rows ≠ [] := by
+  intro fb hfb
+  obtain ⟨f, hf, rfl⟩ := List.mem_map.1 hfb
+  exact rowsOf_ne_nil _ _ _ (locPairs_ne_nil _ _ (hfs f hf).blocks)
+
+/-- collections the writer can print: a sequence name without space / line break, printable features -/
+def CollOK (c : List Char × List Feature) : Prop :=
+  (c.1 ≠ [] ∧ ' ' ∉ c.1 ∧ '\n' ∉ c.1) ∧ ∀ f ∈ c.2, FeatOK f
+
+theorem filesText_eq (colls : List (List Char × List Feature)) (h : ∀ c ∈ colls, CollOK c) :
+    filesText colls = some (join '\n' ((colls.map (fun c => sectionLines c.1 c.2)).flatten ++ [[]])) := by
+  unfold filesText
+  have hm : colls.mapM (fun c => fileText c.1 c.2)
+      = some (colls.map (fun c => join '\n' (sectionLines c.1 c.2) ++ ['\n'])) := by
+    induction colls with
+    | nil => rfl
+    | cons c cs ih =>
+      have := ih (fun x hx => h x (List.mem_cons_of_mem _ hx))
+      simp only [List.mapM_cons, fileText_eq c.1 c.2 (h c (by simp)).2, this, List.map_cons]
+      rfl
+  rw [hm]
+  simp only [Option.some.injEq]
+  clear hm
+  induction colls with
+  | nil => simp [join]
+  | cons c cs ih =>
+    have := ih (fun x hx => h x (List.mem_cons_of_mem _ hx))
+    simp only [List.map_cons, List.flatten_cons, List.append_assoc]
+    rw [this, join_append '\n' (sectionLines c.1 c.2) _ (by simp [sectionLines]) (by simp)]
+    simp
+
+theorem filesText_read (colls : List (List Char × List Feature)) (h : ∀ c ∈ colls, CollOK c) :
+    ∃ t, filesText colls = some t ∧
+      Spec.Tbl.read t = some (colls.map (fun c => ⟨c.1, c.2.map featOf⟩)) := by
+  refine ⟨_, filesText_eq colls h, ?_⟩
+  have hlines : ∀ l ∈ (colls.map (fun c => sectionLines c.1 c.2)).flatten ++ [[]], '\n' ∉ l := by
+    intro l hl
+    simp only [List.mem_append, List.mem_flatten, List.mem_map, List.mem_singleton] at hl
+    rcases hl with ⟨g, ⟨c, hc, rfl⟩, hl⟩ | rfl
+    · exact sectionLines_no_nl c.1 c.2 (h c hc).1.2.2 (h c hc).2 l hl
+    · simp
+  unfold Spec.Tbl.read linesOf
+  rw [splitOn_join '\n' _ (by simp) hlines]
+  simp only [List.map_append, List.map_cons, List.map_nil, classify_nil]
+  have hend : readLines [Line.blank] = some ⟨[], [], [], []⟩ := by simp [readLines, step]
+  have key : readLines ((colls.map (fun c => sectionLines c.1 c.2)).flatten.map classify ++ [Line.blank])
+      = some ⟨[], [], [], colls.map (fun c => ⟨c.1, c.2.map featOf⟩)⟩ := by
+    induction colls with
+    | nil => simpa using hend
+    | cons c cs ih =>
+      have ih' := ih (fun x hx => h x (List.mem_cons_of_mem _ hx))
+        (fun l hl => hlines l (by
+          simp only [List.map_cons, List.flatten_cons, List.append_assoc, List.mem_append] at hl ⊢
+          exact Or.inr hl))
+      have hc := h c (by simp)
+      simp only [List.map_cons, List.flatten_cons, List.map_append, List.append_assoc]
+      rw [classify_section c.1 c.2 ⟨hc.1.1, hc.1.2.1⟩ hc.2]
+      have := readLines_section c.1 (featBlanks c.2) (featBlanks_rows c.2 hc.2) _ _ ih' rfl rfl rfl
+      simp only [List.cons_append] at this ⊢
+      rw [this]
+      simp [featBlanks, List.map_map, Function.comp_def]
+  rw [key]
+
 end BioCantor.Proofs.Tbl
